@@ -199,7 +199,8 @@ def corpus(tier):
     # transfer-coding names are case-insensitive too
     for kind in ('request', 'response'):
         start = starts(kind)[0]
-        for tev in (b'Chunked', b'CHUNKED'):
+        # ... and chunked may be the LAST of several codings ("gzip, chunked": the framing is chunked all the same)
+        for tev in (b'Chunked', b'CHUNKED', b'gzip, chunked', b'gzip,Chunked'):
             for body in (b'', b'abc'):
                 for trailing in (b'', b'G'):
                     out.append(build(kind, start, hsets[1], 'chunked', body, (1, len(body) - 1) if body else (), trailing,
